@@ -66,6 +66,8 @@ class Gen:
             val = r.choice([lo, hi, 0, 1, r.randint(lo, hi), r.randint(lo, hi)])
             val = min(max(val, lo), hi)
             out.append({"name": "f%d" % i, "w": w, "s": s, "rand": rand, "val": val, "enums": None})
+            if r.random() < 0.2:
+                out[-1]["attr"] = True           # declared through vsc.rand_attr / vsc.attr
         if not any(f["rand"] for f in out):
             out[0]["rand"] = True
         return out
@@ -92,6 +94,9 @@ class Gen:
 
     def leaf_right(self, fs):
         r = self.r
+        if self.sall is None and r.random() < 0.04:
+            # Python ints at the edges of the 32-bit signed literal type
+            return I(r.choice([2**31 - 1, 2**31, -2**31, -2**31 - 1, 2**32 - 1, 2**32]))
         if r.random() < 0.5:
             if self.sall is False:
                 return I(r.choice([0, 1, 2, 3, 5, 7, 8, 15, 16, r.randint(0, 40)]))
@@ -362,7 +367,8 @@ def scenario_requests(S, scn):
                 recs.append({"groups": [[S.tree_json(c, fidx) for c in g] for g in r["groups"]],
                              "answers": [a if a == "unsat" else {"sat": [[fidx[kk], v] for kk, v in a["sat"].items() if kk in fidx]}
                                          for a in r["answers"]]})
-        fields = [dict(f, val=before[i]) for i, f in enumerate(scn["fields"])]
+        # declRand: whether the Python class of the field object is the rand_* subclass (it decides reflected comparisons)
+        fields = [dict(f, val=before[i], declRand=bool(f["rand"] and not f.get("attr"))) for i, f in enumerate(scn["fields"])]
         tops = [s for b in sorted(scn["blocks"], key=lambda b: b["name"]) if not b.get("dynamic") and b.get("enabled", True)
                 for s in b["stmts"]]
         if call.get("inline") is not None:
